@@ -11,6 +11,7 @@ namespace Kopf.C15
 section Unmatched
 variable {V : Type} [PyVal V]
 
+omit [PyVal V] in
 /-- no handler of this resource at all: nothing is owned, nothing is purged -/
 theorem purgeIds_of_no_handlers (hs : List (Handler V)) (records : List (String × List String))
     (h : hasHandlers hs = false) : purgeIds hs records = [] := by
@@ -20,20 +21,21 @@ theorem purgeIds_of_no_handlers (hs : List (Handler V)) (records : List (String 
     intro x hx; simpa using h x hx
   simp [purgeIds, hown]
 
-/-- (the proof of `stealth_exact_at` in Props/C15.lean, kept here for the build time of that file) -/
-theorem cycle_unmatched (v : Repairs) (hv : v.blindPurge = true)
+/-- (the proof of `stealth_exact_at` in Props/C15.lean, kept here for the build time of that file):
+    EVERY variant of the code, with or without the blind purge -/
+theorem cycle_unmatched (v : Repairs)
     (r : Registry V) (cs : Causes V) (o : Obj) (stopped : List String)
     (hpre : prematchAny r.changing cs.changing = false)
     (hw : ∀ h ∈ r.watching, matchHandler h cs.watching = false)
     (hs : ∀ h ∈ r.spawning, matchHandler h cs.spawning = false) :
     cycleAt v r cs o stopped =
       (if o.carriedEff then [Effect.carried] else []) ++
-      purgeEffect (purgeIds r.changing o.records) ++
+      purgeEffect (blindPurged v r.changing o.records) ++
       (if o.blocked then [Effect.removeFinalizer] else []) ++
       (if !o.deletedEvent && o.ongoing && o.blocked && !(hasHandlers r.spawning && o.lingering)
         then [Effect.removeFinalizer] else []) ++
       (if !o.deletedEvent && (hasHandlers r.spawning && o.lingering) && !o.carriedEff &&
-          (purgeIds r.changing o.records).isEmpty && !o.blocked
+          (blindPurged v r.changing o.records).isEmpty && !o.blocked
         then [Effect.touch] else []) := by
   have e1 : iterPlain r.watching cs.watching [] = [] := by
     simp only [iterPlain, List.filter_eq_nil_iff]
@@ -47,19 +49,32 @@ theorem cycle_unmatched (v : Repairs) (hv : v.blindPurge = true)
   rcases o with ⟨d, g, b, c, co, l, hd, res, recs, t⟩
   -- nothing of the changing kind is live after the blind gate: no early exit, whatever the patch holds
   generalize hne : patchNonEmpty v ⟨d, g, b, c, co, l, hd, res, recs, t⟩ = ne
-  simp only [cycleAt, cycleFull, finishCycle, hne, hv, hpre, e1, e2, e3, getHandlersPlain, dedup, dedupBy, dedupByAux,
-    ids, blindCore, addingCore, removingCore, mustBlockCore, releaseCore, earlyExitCore, touchCore, waitingCore,
-    Obj.carriedEff, List.map_nil, List.isEmpty_nil, Bool.not_true, Bool.and_false, Bool.false_eq_true, if_false,
-    List.append_nil, List.nil_append, Bool.not_false, Bool.and_true, Bool.true_and]
-  cases hC : hasHandlers r.changing
-  · have hp := purgeIds_of_no_handlers r.changing recs hC
+  cases hb : v.blindPurge
+  · -- blind again (/repo ad4ec08, and the code before 423b86f): nothing is purged
+    simp only [cycleAt, cycleFull, finishCycle, hne, hb, hpre, e1, e2, e3, getHandlersPlain, dedup, dedupBy, dedupByAux,
+      ids, blindCore, addingCore, removingCore, mustBlockCore, releaseCore, earlyExitCore, touchCore, waitingCore,
+      blindPurged, purgeEffect,
+      Obj.carriedEff, List.map_nil, List.isEmpty_nil, Bool.not_true, Bool.and_false, Bool.false_eq_true, if_false,
+      List.append_nil, Bool.not_false, Bool.and_true, Bool.true_and, Bool.false_and, if_true]
+    cases hC : hasHandlers r.changing <;>
     cases hS : hasHandlers r.spawning <;>
     cases d <;> cases g <;> cases b <;> cases c <;> cases co <;> cases l <;>
-      simp [hp, purgeEffect]
-  · cases hP : (purgeIds r.changing recs).isEmpty <;>
-    cases hS : hasHandlers r.spawning <;>
-    cases d <;> cases g <;> cases b <;> cases c <;> cases co <;> cases l <;>
-      simp [hP, purgeEffect]
+      simp
+  · -- with the blind purge of /repo 423b86f
+    simp only [cycleAt, cycleFull, finishCycle, hne, hb, hpre, e1, e2, e3, getHandlersPlain, dedup, dedupBy, dedupByAux,
+      ids, blindCore, addingCore, removingCore, mustBlockCore, releaseCore, earlyExitCore, touchCore, waitingCore,
+      blindPurged,
+      Obj.carriedEff, List.map_nil, List.isEmpty_nil, Bool.not_true, Bool.and_false, Bool.false_eq_true, if_false,
+      List.append_nil, Bool.not_false, Bool.and_true, Bool.true_and, if_true]
+    cases hC : hasHandlers r.changing
+    · have hp := purgeIds_of_no_handlers r.changing recs hC
+      cases hS : hasHandlers r.spawning <;>
+      cases d <;> cases g <;> cases b <;> cases c <;> cases co <;> cases l <;>
+        simp [hp, purgeEffect]
+    · cases hP : (purgeIds r.changing recs).isEmpty <;>
+      cases hS : hasHandlers r.spawning <;>
+      cases d <;> cases g <;> cases b <;> cases c <;> cases co <;> cases l <;>
+        simp [hP, purgeEffect]
 
 end Unmatched
 
